@@ -208,7 +208,13 @@ func mergeListMatch(obj []any, m any, v map[string]any) ([]any, error) {
 		if match(v2, m) {
 			found = true
 
-			v2, err := merge(v2, val)
+			// Each matching entry gets its own copy of the value.
+			val2, err := deepClone(val)
+			if err != nil {
+				return nil, err
+			}
+
+			v2, err := merge(v2, val2)
 			if err != nil {
 				return nil, err
 			}
